@@ -1374,3 +1374,42 @@ def _presynced_by_callers(repo, f, cq: str, slot: str) -> None:
                                      for c in walk_no_nested(g.node)) for g in callers):
         raise AnalysisError(f"{f.qualname}: `{slot}` is not synchronised here but every caller calls "
                             f"{sorted(names)}: synchronisation moved to the callers, not followed")
+
+
+# ---- added after the seeded change C23-r8seed2: the axes of the CTF kernel are in the order of their metadata
+_inner_run_c23_r8 = run
+
+
+def run(ctx) -> None:  # noqa: F811
+    from ..report import OnlyConstructs
+    from . import c03
+
+    class _Borrow(OnlyConstructs):
+        """keeps the borrowed rule's instances for the CTF composition only and does not import its other rule texts"""
+
+        def rule(self, name, text):
+            return None
+
+        def assume(self, text):
+            return None
+
+        def require(self, cond, what):
+            if not cond:
+                raise AnalysisError(what)
+
+    ctx.rule("R-ORDER", "(shared with C03; the rule lives in c03) CTF._evaluate_from_angular_grid multiplies its components "
+             "in the order in which CTF.ensemble_axes_metadata lists their distributions (aberrations, angular spread, "
+             "focal spread, aperture cutoff): the multiplication order fixes the order of the ensemble axes of the "
+             "kernel.  With two distributions whose axes are exchanged, the member the metadata labels with cutoff c "
+             "carries another member's cutoff and transmits outside its own aperture")
+    pending = None
+    try:
+        proxy = _Borrow(ctx, ("abtem.transfer.CTF:composition", "abtem.transfer.CTF._"))
+        before = len(ctx.instances)
+        c03._prev_run(proxy)
+        ctx.require(len(ctx.instances) > before, "R-ORDER: the CTF composition was not examined")
+    except AnalysisError as e:
+        pending = e
+    _inner_run_c23_r8(ctx)
+    if pending is not None:
+        raise pending
